@@ -122,6 +122,22 @@ def run(ctx) -> None:
                 r = I.call_func(y2r.find_method("produce_regex"), [], {}, y, None, None)
             return r
         return {(p.kind, Ic.expr_of(p.value) if p.kind == "return" else repr(p.exc)[:80]) for p in Ic.explore(thunk)}
+    def compile_twice_same_instance(doc):
+        def thunk(I):
+            I.run.user["docs"] = {"<P0>": doc}
+            y = I.construct(y2r, [Str((Hole("P0", "path", True),))], {}, None, None)
+            r1 = I.call_func(y2r.find_method("produce_regex"), [], {}, y, None, None)
+            r2 = I.call_func(y2r.find_method("produce_regex"), [], {}, y, None, None)
+            return r2 if Ic.expr_of(r1) != Ic.expr_of(r2) else r1
+        return {(p.kind, Ic.expr_of(p.value) if p.kind == "return" else repr(p.exc)[:80]) for p in Ic.explore(thunk)}
+    timesdoc = {"pattern": [{Sym("M1"): [Sym("O1")], "times": 2}, {"$or": [Sym("M2"), Sym("M3")], "times": {"min": 0, "max": 3}},
+                            {Sym("M4"): {"times": 3}}, {Sym("M5"): ["&x"]}, {Sym("M6"): ["&x"]}]}
+    for label, d in (("times/captures rule", timesdoc), ("capture rule", docsB[0])):
+        one = compile_seq([d])
+        two = compile_twice_same_instance(d)
+        diff = sorted(one ^ two)
+        ctx.check(not diff, "C14.H3.compile-sequence-equals-fresh", f"produce_regex() twice on one Yaml2Regex [{label}]",
+                  (str(diff[0]) if diff else "")[:300], "compiling the same loaded rule again gives the same regex")
     for bi, dB in enumerate(docsB):
         fresh = compile_seq([dB])
         for label, seqdocs in (("after a rule with captures and full-match flags", [docA, dB]), ("twice", [dB, dB])):
